@@ -259,6 +259,10 @@ def c02_d(ctx: Ctx):
 
 
 @rule("C02-e")
+def _single_unpack(t, name):
+    return isinstance(t, (ast.Tuple, ast.List)) and len(t.elts) == 1 and isinstance(t.elts[0], ast.Name) and t.elts[0].id == name
+
+
 def c02_e(ctx: Ctx):
     """open_job(id=...) hands out a directory_known handle only after existence was established from the directory."""
     R = "C02-e"
@@ -282,15 +286,25 @@ def c02_e(ctx: Ctx):
             out.append(ctx.inc(R, fi, n.ast, "path enumeration truncated"))
             continue
         bad = None
+        # the variable that becomes the handle's id (id_=<name>); along a path it may be a copy of the parameter (`full_id = id`)
+        idarg = kwarg(v, "id_")
+        idv = idarg.id if isinstance(idarg, ast.Name) else idp
         for path, facts in paths:
             facts = common.expand_facts(ctx, fi, facts)
-            established = any(t.replace(" ", "") == f"self._contains_job_id({idp})" and p for (t, p) in facts)
+            names = {idv}
+            for i in reversed(path):
+                a = cfg.nodes[i].ast
+                if isinstance(a, ast.Assign) and isinstance(a.value, ast.Name) and any(isinstance(t, ast.Name) and t.id in names for t in a.targets):
+                    names.add(a.value.id)
+            established = any(t.replace(" ", "") == f"self._contains_job_id({nm})" and p for (t, p) in facts for nm in names)
             if not established:
                 for i in path:
                     a = cfg.nodes[i].ast
-                    if isinstance(a, ast.Assign) and any(isinstance(t, ast.Name) and t.id == idp for t in a.targets) \
+                    if isinstance(a, ast.Assign) and any(isinstance(t, ast.Name) and t.id in names for t in a.targets) \
                             and isinstance(a.value, ast.Subscript):
                         established = True  # id = matches[0] : taken from the directory listing
+                    if isinstance(a, ast.Assign) and any(_single_unpack(t, nm) for t in a.targets for nm in names) and isinstance(a.value, ast.Name):
+                        established = True  # (id,) = matches : the only element of the listing matches
             if not established:
                 bad = path
         if bad:
@@ -317,13 +331,21 @@ def c02_e(ctx: Ctx):
         else:
             out.append(ctx.inc(R, fi, tnode, f"abbreviation threshold {canon(b['N'])} does not fold", construct=kt))
     colls = set()
+    idnames = {idp}
+    for c in body_nodes(fi):
+        if isinstance(c, ast.Call) and JINIT in common.targets_of(ctx, fi, c) and isinstance(kwarg(c, "id_"), ast.Name):
+            idnames.add(kwarg(c, "id_").id)
     for n in cfg.stmt_nodes():
         a = n.ast
-        if isinstance(a, ast.Assign) and any(isinstance(t, ast.Name) and t.id == idp for t in a.targets) and isinstance(a.value, ast.Subscript):
-            facts = common.facts_at(ctx, fi, a, "nx")
+        unpack = isinstance(a, ast.Assign) and any(_single_unpack(t, nm) for t in a.targets for nm in idnames) and isinstance(a.value, ast.Name)
+        if unpack:
+            colls.add(canon(a.value))
+            out.append(ctx.ok(R, fi, a, f"an abbreviated id is resolved by unpacking the single element of {canon(a.value)} (any other number of matches raises)"))
+        if isinstance(a, ast.Assign) and any(isinstance(t, ast.Name) and t.id in idnames for t in a.targets) and isinstance(a.value, ast.Subscript):
+            facts = common.expand_facts(ctx, fi, common.facts_at(ctx, fi, a, "nx"))
             coll = canon(a.value.value)
             colls.add(coll)
-            if (f"len({coll}) == 1", True) in facts:
+            if common.len_range(facts, coll) == (1, 1):
                 out.append(ctx.ok(R, fi, a, f"an abbreviated id is resolved only when exactly one listed id matches (len({coll}) == 1)"))
             else:
                 out.append(ctx.viol(R, fi, a, f"an abbreviated id is resolved to {canon(a.value)} without establishing that exactly one id matches (facts: {sorted(facts)}): "
